@@ -274,7 +274,9 @@ class BuiltinMixin(object):
     raise Unsupported('next()')
 
   def bi_super(self, args, kw, st):
-    raise Unsupported('super()')
+    if len(args) == 2 and isinstance(args[0], VGlobal):
+      return VSuper(args[0].path.rsplit('.', 1)[-1], args[1])
+    raise Unsupported('zero-argument super()')
 
   def bi_issubclass(self, args, kw, st):
     return self.pure_app('issubclass', list(args), 'bool', st)
